@@ -440,8 +440,9 @@ func filterShape(pi *pkgInfo) bool {
 // sends nothing else: in the function and the functions of the package it calls there is exactly one send
 // statement; it sends an identifier and sits in a loop over <x>.Channels of one of these forms (c is
 // <x>.Channels[i] for the loop's index i, or the loop's value variable):
-//   for ... range <x>.Channels { if c != nil { c <- message } }
-//   for ... range <x>.Channels { if c == nil { continue }; c <- message }
+//
+//	for ... range <x>.Channels { if c != nil { c <- message } }
+//	for ... range <x>.Channels { if c == nil { continue }; c <- message }
 func fanoutShape(pi *pkgInfo) bool {
 	if pi.funcs["HandleMessagesUntilEOF"] == nil {
 		return false
